@@ -356,3 +356,8 @@ package jws
 //@   ensures [ok=>encoded] err == nil ==> len(result) > 0 && e.base != nil && fresh(e.base) && signature.Encodes(result, e.base)
 //@   assert before call jws.sign#0: [payload-is-object] payload != nil && JClaimsOK(req.Payload.Content) && !JIsNull(req.Payload.Content)
 //@   assert before call jws.sign#0: [attributes-valid] AttrsPlaced(req, signedAttrs) && (req.SigningScheme == signature.SigningSchemeX509 || req.SigningScheme == signature.SigningSchemeX509SigningAuthority) && arg1 == signedAttrs && arg0 == payload
+
+//@ func (*localSigningMethod).CertificateChain(s)
+//@   requires s != nil && s.signer != nil
+//@ func (*localSigningMethod).PrivateKey(s)
+//@   requires s != nil && s.signer != nil
